@@ -264,6 +264,8 @@ impl Transaction {
 
 		// Get the current visible sequence number as our start point.
 		let start_seq_num = core.seq_num();
+		#[cfg(feature = "verif")]
+		crate::verif::point("txn.begin.after_load");
 
 		// Register this txn's start_seq with the GC watermark tracker.
 		// Both read-write and write-only txns register here (write-only txns
@@ -277,6 +279,8 @@ impl Transaction {
 		if !mode.is_write_only() {
 			snapshot = Some(Snapshot::new(Arc::clone(&core), start_seq_num));
 		}
+		#[cfg(feature = "verif")]
+		crate::verif::point("txn.begin.after_register");
 
 		Ok(Self {
 			mode,
